@@ -420,22 +420,52 @@ def classify(fn, F, cg=None, exceptions=None):
                             fo = field_of_gep(fn.mod, g) if g is not None and not g.is_param and g.op == "getelementptr" else None
                             if fo and fo[1] in ("callback", "read"):
                                 calls.append((i, "<callback>"))
+        def refutes(facts, vid, cn):
+            """the facts exclude every exhausted outcome of read-like callee cn for the value with SSA id vid"""
+            lo, hi = -(1 << 63), (1 << 63) - 1
+            nonzero = False
+            for f in facts:
+                if M.strip(f[1]) != ("v", vid) or not is_const(f[2]) or const_val(f[2]) is None:
+                    continue
+                kk = const_val(f[2])
+                if kk >= (1 << 31) and f[0][0] == "s":
+                    kk -= (1 << 32)
+                if f[0] in ("sgt", "ugt"):
+                    lo = max(lo, kk + 1)
+                elif f[0] in ("sge", "uge"):
+                    lo = max(lo, kk)
+                elif f[0] == "slt":
+                    hi = min(hi, kk - 1)
+                elif f[0] == "sle":
+                    hi = min(hi, kk)
+                elif f[0] == "eq":
+                    lo, hi = max(lo, kk), min(hi, kk)
+                elif f[0] == "ne" and kk == 0:
+                    nonzero = True
+            for pred, k in READ_LIKE[cn]:
+                ex_lo, ex_hi = {"eq": (k, k), "slt": (-(1 << 63), k - 1), "sle": (-(1 << 63), k), "ule": (0, k)}.get(pred, (None, None))
+                ok_ = ex_lo is not None and (hi < ex_lo or lo > ex_hi)
+                if pred in ("eq", "ule") and k == 0 and nonzero:
+                    ok_ = True
+                if M.find_fact((NEG[pred], ("inst", vid), k), facts)[0] is not None:
+                    ok_ = True
+                if not ok_:
+                    return False
+            return True
         for c, cn in calls:
             good = True
             for latch in lp["latches"]:
-                facts = F.on_edge(latch, lp["header"])
-                refuted = False
-                for pred, k in READ_LIKE[cn]:
-                    npat = (NEG[pred], ("inst", c.id), k)
-                    if M.find_fact(npat, facts)[0] is not None:
-                        refuted = True
-                    # stronger facts also refute: e.g. result ne 0 refutes 'eq 0'; 'sgt 0' refutes 'sle 0'
-                    if pred in ("sle",) and M.find_fact(("sgt", ("inst", c.id), k), facts)[0] is not None:
-                        refuted = True
-                    if pred in ("slt",) and k == 1 and M.find_fact(("sgt", ("inst", c.id), 0), facts)[0] is not None:
-                        refuted = True
-                if not refuted:
+                if not refutes(F.on_edge(latch, lp["header"]), c.id, cn):
                     good = False
+            if not good:
+                # rotated form: `x = read(); while (x is fine) { ...; x = read(); }` - the result feeds a header phi on every back edge and
+                # the header lets the body run only if that phi is not an exhausted outcome (an exhausted source stays exhausted)
+                for ph in phis:
+                    backs_ = [v for v, pb in ph.incoming if pb in body]
+                    if backs_ and all(M.strip(v) == ("v", c.id) for v in backs_) and all(fn.dominates(c.block.id, l) for l in lp["latches"]):
+                        ins = [s_ for s_ in hdr.succs if s_ in body]
+                        if ins and all(refutes(F.edge_facts(lp["header"], s_), ph.id, cn) for s_ in ins) and all(s_ in body for s_ in hdr.succs if not any((lp["header"], s_) == e for e in lp["exits"])):
+                            good = True
             if good:
                 li.cls = "B"
                 li.witness = "each iteration consumes input through %s and the back edge is taken only if it was not exhausted" % cn
